@@ -111,6 +111,25 @@ impl FreezerFiles {
         Ok(files)
     }
 
+    /// verif hook: the in-memory state that decides the behaviour of later operations
+    /// (item count, head id / byte count / cursor, tail id, cached file ids), so that an explorer
+    /// can tell apart states whose on-disk images are equal.
+    #[cfg(feature = "verif-hooks")]
+    pub fn verif_state(&self) -> (u64, u32, u64, u64, u32, Vec<u32>) {
+        let mut head_file = &self.head.file;
+        let cursor = head_file.stream_position().unwrap_or(u64::MAX);
+        let mut cached: Vec<u32> = self.files.iter().map(|(k, _)| *k).collect();
+        cached.sort_unstable();
+        (
+            self.number(),
+            self.head_id,
+            self.head.bytes,
+            cursor,
+            self.tail_id,
+            cached,
+        )
+    }
+
     /// Return frozen item number
     #[inline]
     pub fn number(&self) -> u64 {
